@@ -37,6 +37,15 @@ theorem C09_code_streams :
     janusRejectsOtherStreams = true ∧
     (∀ t ∈ publishableStreams, t ∈ sweepStreams) := by decide
 
+/-- The Janus client destroys a publisher's room on `Close()` and when joining the
+freshly created room failed, detaches subscriber handles on `Close()`, and tells
+the owner (`PublisherClosed` / `SubscriberClosed`) — the shape behind the model's
+"`Close()` closes" and "a failed creation opens nothing" (observed against the
+repository's test gateway by the harness ops `janus` and `janustimeout`). -/
+theorem C09_code_janus_cleanup :
+    janusPublisherCloseDestroysRoom = true ∧ janusSubscriberCloseDetaches = true ∧
+    janusJoinFailureDestroysRoom = true := by decide
+
 /-- An old-style session (no permissions from the backend yet) may publish everything. -/
 theorem C09_code_oldstyle : Perms.oldStyle = { media := true, audio := true, video := true, screen := true } := by
   decide
